@@ -20,7 +20,7 @@ class C06(Prop):
     PER_CASE_TIMEOUT = 30.0
 
     def gen(self, rng, tier):
-        nbb, nbw = (1500, 300) if tier == "quick" else (16000, 4000)
+        nbb, nbw = (3000, 500) if tier == "quick" else (30000, 5000)
         for i in range(nbb):
             yield bedgen68.bb_case(rng, tier, zoom_mode=rng.choice(["none", "none", "manual", "auto", "auto-small"]),
                                    invalid=(i % 12 == 11), nqueries=1)
